@@ -72,6 +72,13 @@ CORPUS = [
     # track 100) and the one-tick track of C12_past_end_playTime_differs (n = 2,3,4 are past the end: play_time differs)
     "seek 0 1,2,3,4,5,6,7,8,9,10,11,12,13,14,15,16 T0:4.0.0.0,2.1.2.1,5.0.0.0,12.2.0.0,2.2.1.0,6.2.0.0,8.100.0.0,2.5.3.1 T100:2.9.2.1,14.1.0.0",
     "seek 0 1,2,3,4 T0:2.1.1.0",
+    # round 3: seeks on a player that is not fresh — the example of C12_seek_eq_play_after_play (seek 3 after 4 played
+    # ticks) and every split m+n of the same track; a zero-time run behind the landing tick; drum mode; loop point
+    "seekm 0 3 1,2,3,4,5,6,7,8,9,10,11,12 T0:4.0.0.0,2.1.2.1,5.0.0.0,12.2.0.0,2.2.1.0,6.2.0.0,8.100.0.0,2.5.3.1 T100:2.9.2.1,14.1.0.0",
+    "seekm 0 0 1,2,3,4,5,6,7,8 T0:4.0.0.0,2.1.2.1,5.0.0.0,12.2.0.0,2.2.1.0,6.2.0.0,8.100.0.0,2.5.3.1 T100:2.9.2.1,14.1.0.0",
+    "seekm 0 7 1,2,3,4,5,6,7,8 T0:4.0.0.0,2.1.2.1,5.0.0.0,12.2.0.0,2.2.1.0,6.2.0.0,8.100.0.0,2.5.3.1 T100:2.9.2.1,14.1.0.0",
+    "seekm 0 2 1,2,3,4,5,6 T0:26.1.0.0,2.100.3.1,2.101.2.2,26.0.0.0,2.5.1.0 T100:13.9.0.0,2.40.0.0 T101:2.41.0.0",
+    "seekm 0 4 1,2,3,4,5,6,7,8,9,10,11,12,13,14,15,16,17,18,19,20 T0:2.1.2.0,7.0.0.0,2.2.2.0,12.1.0.0",
 ]
 
 
@@ -146,6 +153,11 @@ def cases(rng, tier):
         ns = sorted(set(list(range(1, 41)) + [rng.randrange(41, 200) for _ in range(4)]))
         made += 1
         yield Case("seek 0 %s%s %s" % (",".join(map(str, ns)), extra, songgen.render(song)), sorted(tags) or ["plain"], "structured")
+        # round 3: the same track, seeks on a player that has already played m+1 ticks (C12_seek_eq_play_after_play)
+        if made % 2 == 0:
+            m = rng.choice([0, 1, 2, 3, 5, 8, 13, rng.randrange(0, 40)])
+            ns2 = sorted(set(list(range(1, 25)) + [rng.randrange(25, 120) for _ in range(3)]))
+            yield Case("seekm 0 %d %s%s %s" % (m, ",".join(map(str, ns2)), extra, songgen.render(song)), sorted(tags | {"non-fresh"}), "structured-nonfresh")
 
 
 _BRK = None
@@ -180,6 +192,16 @@ def finding_key(case, impl, judge):
 def shrink(req):
     toks = req.split()
     song = songgen.parse_request_song(req)
+    if toks[0] == "seekm":
+        extra = " ".join(t for t in toks if t.startswith("P:"))
+        ns = toks[3].split(",")
+        if len(ns) > 1:
+            for i in range(len(ns)):
+                yield " ".join(["seekm", toks[1], toks[2], ",".join(ns[:i] + ns[i + 1:])] + ([extra] if extra else []) + [songgen.render(song)])
+        for s2 in songgen.shrink_song(song):
+            if 0 in s2:
+                yield " ".join(["seekm", toks[1], toks[2], toks[3]] + ([extra] if extra else []) + [songgen.render(s2)])
+        return
     head = " ".join(t for t in toks[:3] if not t.startswith("T"))
     extra = " ".join(t for t in toks if t.startswith("P:"))
     # fewer n first
